@@ -627,7 +627,7 @@ class Body:
         seen = seen | {(local, tuple(projs))}
         e = self._def_expr(defs[0], projs, depth, seen)
         partial = self.defs.get((local, "partial"), [])
-        if partial and not projs:
+        if partial and not projs and not self.local_ty(local).startswith(("&", "*")):
             # the value was also written through field projections / raw writes (e.g. `vec![x]`
             # initialising a fresh Box): keep what was written
             ws = []
